@@ -5,15 +5,17 @@
     [pre] = well-formed use; [step] = the public edit, [None] when the Python code raises). *)
 From Coq Require Import List Arith Bool String.
 From KV Require Import Model.Circuit Model.CircuitInv Proofs.CircuitProofs Proofs.CircuitCopy Proofs.CircuitElim Proofs.CircuitDangling
-     Proofs.CircuitHistory Proofs.CircuitStats Proofs.CircuitBool Proofs.CircuitSubst.
+     Proofs.CircuitHistory Proofs.CircuitStats Proofs.CircuitBool Proofs.CircuitSubst Proofs.CircuitSubstInv Proofs.CircuitResolve.
 Import ListNotations.
 
 Theorem C09_empty : CInv empty.
 Proof. exact cinv_empty. Qed.
 
 (* Node(), Line() with implicit or free explicit pins, Line.remove, Node.remove of a disconnected node, io_nodes[..] = n,
-   get_or_add_fork, remove_dangling_nodes, eliminate_1to1_forks, copy, pickle round trip: under well-formed use the call does not raise
-   and the result is consistent again *)
+   get_or_add_fork, remove_dangling_nodes, eliminate_1to1_forks, substitute, resolve_tlib_cells, copy, pickle round trip
+   ([supported] holds for all twelve operations): under well-formed use the call does not raise and the result is consistent again *)
+Theorem C09_supported_all : forall o, supported o = true.
+Proof. exact supported_all. Qed.
 Theorem C09_step_inv : forall c o, CInv c -> supported o = true -> pre c o = true ->
   exists c', step c o = Some c' /\ CInv c'.
 Proof. exact step_inv. Qed.
@@ -74,13 +76,81 @@ Proof. exact stats_consistent. Qed.
 Theorem C09_cinv_b_sound : forall c, cinv_b c = true -> CInv c.
 Proof. exact cinv_b_sound. Qed.
 
-(* substitute / resolve_tlib_cells.  Wanted, NOT proved (stretch item):
-     forall c n impl, CInv c -> pre c (Substitute n impl) = true -> exists c', step c (Substitute n impl) = Some c' /\ CInv c'
-   where pre = the instance is a listed cell that is not a port, the implementation is a consistent circuit with listed
-   interface nodes and the asserts / dictionary lookups of the code succeed.  substitute is tied to the code by
-   correspondence and its results are checked with the (sound) executable invariant on every generated history.
-   The statement was FALSE for the code before commit 119be80, which ran remove_dangling_nodes for an unconnected instance
-   output while later output lines were still detached ([substitute_gen false]); the theorem below holds that witness
+(* every finite history of the twelve public edits from the empty circuit, no condition on the kind of operation *)
+Theorem C09_history_inv_all : forall ops, hist_pre empty ops = true ->
+  exists c, run_hist ops = Some c /\ CInv c /\ IoLive c /\ io_ok_b c = true.
+Proof. exact history_inv_all. Qed.
+
+(* substitute: pre = the instance is a listed cell that is not a port, the implementation is a consistent circuit with listed
+   interface nodes, has the shape [subst_shape_b] (no port listed twice, ports are forks, the designated cell is not a port, no fork
+   drives a pure output port) and the asserts / dictionary lookups of the code succeed.  The proof follows the five phases of the
+   code through the invariant relative to detached line ends (Proofs/CircuitWeak.v, Proofs/CircuitSubstInv.v). *)
+Theorem C09_substitute : forall c n impl, CInv c -> IoLive c -> pre c (Substitute n impl) = true ->
+  exists c', substitute c n impl = Some c' /\ CInv c' /\ IoLive c'.
+Proof. exact substitute_inv. Qed.
+Theorem C09_substitute_core : forall c node impl c',
+  CInv c -> In node (nodes c) -> is_fork (kind_of c node) = false -> io_mem c node = false ->
+  CInv impl -> IoLive impl -> subst_shape_b impl = true ->
+  substitute c node impl = Some c' ->
+  CInv c' /\ (IoLive c -> IoLive c') /\ (forall x, x <> node -> Known c x -> Known c' x).
+Proof. exact substitute_core. Qed.
+(* resolve_tlib_cells: every library implementation is consistent and every LIVE library instance that the loop over the node
+   snapshot visits is, in the state in which it is visited, a cell that is not a port, its implementation has the shape
+   [subst_shape_b] and the call does not raise ([resolve_pre_from]).  That a live snapshot node is still a listed node is proved,
+   not assumed (removed nodes stay [Known]: removed and disconnected); removed instances are skipped by `n.circuit is not None` *)
+Theorem C09_resolve : forall c t, CInv c -> IoLive c -> pre c (ResolveTlib t) = true ->
+  exists c', resolve_tlib c t = Some c' /\ CInv c' /\ IoLive c'.
+Proof. exact resolve_inv. Qed.
+
+(* each of the four shape conditions is needed: without it substitute returns an inconsistent graph (witnesses reproduced on the
+   real code): a port listed twice; a port that is a cell with an open output pin; a designated cell that is a port (the instance
+   becomes a '__fork__' registered in Circuit.cells); a fork driving an unconnected pure output port (gap in the fork's outputs) *)
+Theorem C09_subst_dup_port_refuted :
+  CInv host_1_2 /\ IoLive host_1_2 /\ pre_without host_1_2 0 impl_dup = true /\ shape4 impl_dup = (false, true, true, true) /\
+  exists c', substitute host_1_2 0 impl_dup = Some c' /\ ~ CInv c'.
+Proof. exact subst_dup_port_refuted. Qed.
+Theorem C09_subst_cell_port_refuted :
+  CInv host_1_1 /\ IoLive host_1_1 /\ pre_without host_1_1 0 impl_cellport = true /\ shape4 impl_cellport = (true, false, true, true) /\
+  exists c', substitute host_1_1 0 impl_cellport = Some c' /\ ~ CInv c'.
+Proof. exact subst_cell_port_refuted. Qed.
+Theorem C09_subst_designated_port_refuted :
+  CInv host_1_2 /\ IoLive host_1_2 /\ pre_without host_1_2 0 impl_desig_port = true /\ shape4 impl_desig_port = (true, true, false, true) /\
+  exists c', substitute host_1_2 0 impl_desig_port = Some c' /\ ~ CInv c'.
+Proof. exact subst_designated_port_refuted. Qed.
+Theorem C09_subst_fork_output_refuted :
+  CInv host_1_1 /\ IoLive host_1_1 /\ pre_without host_1_1 0 impl_fork_out = true /\ shape4 impl_fork_out = (true, true, true, false) /\
+  exists c', substitute host_1_1 0 impl_fork_out = Some c' /\ ~ CInv c'.
+Proof. exact subst_fork_output_refuted. Qed.
+(* the code before commit 11c77ac ([resolve_tlib_old]: no test of node.circuit) substituted a node that the clean-up of an earlier
+   substitution had already removed: every instance satisfies the precondition of substitute in the INITIAL circuit, the call does
+   not raise, the result contains a line driven by a node that is not in the circuit.  The code is consistent on the same input. *)
+Theorem C09_resolve_removed_instance_refuted :
+  CInv host_chain /\ IoLive host_chain /\
+  forallb (fun kv => cinv_b (snd kv) && io_ok_b (snd kv) && subst_shape_b (snd kv)) tlib_chain = true /\
+  forallb (fun n => match tlib_get (kind_of host_chain n) tlib_chain with Some impl => subst_pre_b host_chain n impl | None => true end)
+          (nodes host_chain) = true /\
+  exists c', resolve_tlib_old host_chain tlib_chain = Some c' /\ ~ CInv c'.
+Proof. exact resolve_removed_instance_refuted. Qed.
+Theorem C09_resolve_removed_instance_ok :
+  pre host_chain (ResolveTlib tlib_chain) = true /\
+  option_map (fun c' => (map (name_of c') (nodes c'), List.length (lines c'))) (resolve_tlib host_chain tlib_chain) = Some (["i0"], 0)%string /\
+  exists c', resolve_tlib host_chain tlib_chain = Some c' /\ CInv c' /\ IoLive c'.
+Proof. exact resolve_removed_instance_ok. Qed.
+
+(* the hypotheses are satisfiable: two-output implementation, first output read internally, second output of the instance
+   unconnected (the deferred clean-up removes the inverter); and a history that continues with resolve_tlib_cells *)
+Theorem C09_substitute_example :
+  CInv host_two /\ IoLive host_two /\ pre host_two (Substitute 0 impl_two) = true /\
+  option_map (fun c' => (map (fun n => (name_of c' n, kind_of c' n)) (nodes c'), List.length (lines c')))
+             (substitute host_two 0 impl_two)
+  = Some ([("u", "AND2"); ("a", FORK); ("b", FORK); ("y", FORK); ("r", "BUF1"); ("u~Y", FORK)], 5)%string.
+Proof. exact substitute_example. Qed.
+Theorem C09_example3 : hist_pre empty example_history3 = true /\
+  exists c, run_hist example_history3 = Some c /\ CInv c /\ IoLive c /\ io_ok_b c = true.
+Proof. split. exact example_history3_pre. exact example_history3_inv. Qed.
+
+(* The statement of C09_substitute was FALSE for the code before commit 119be80, which ran remove_dangling_nodes for an unconnected
+   instance output while later output lines were still detached ([substitute_gen false]); the theorem below holds that witness
    (instance with only output 1 connected, implementation input(A) output(Y1,Y2) Y2=INV1(A) Y1=BUF1(Y2)), and the
    current code is consistent on it. *)
 Theorem C09_substitute_early_cleanup_refuted :
